@@ -81,10 +81,10 @@ let parse_hres (s : string) : hresult =
   | _ -> failwith ("bad hres " ^ s)
 
 type ccase = { pw : n list option; app : n list list; tbl : (string * hresult) list; def : hresult; conns : int;
-               steps : (int * string) list; example : bool }
+               steps : (int * string) list; example : bool; tls : string list; rule : n list option }
 
 let parse_case (line : string) : ccase =
-  let c = ref { pw = None; app = []; tbl = []; def = parse_hres "ms(4f4b)"; conns = 1; steps = []; example = false } in
+  let c = ref { pw = None; app = []; tbl = []; def = parse_hres "ms(4f4b)"; conns = 1; steps = []; example = false; tls = []; rule = None } in
   List.iter (fun f ->
     match String.index_opt f '=' with
     | None -> ()
@@ -98,6 +98,8 @@ let parse_case (line : string) : ccase =
                                            (String.sub e 0 j, parse_hres (String.sub e (j + 1) (String.length e - j - 1))))
                               (String.split_on_char ';' v) }
        | "def" -> c := { !c with def = parse_hres v }
+       | "tls" -> c := { !c with tls = String.split_on_char ',' v }
+       | "rule" -> if v <> "-" then c := { !c with rule = Some (bytes_of_hex v) }
        | "conns" -> c := { !c with conns = int_of_string v }
        | "handler" -> c := { !c with example = (v = "example") }
        | "steps" -> if v <> "-" then
@@ -112,13 +114,18 @@ let fw_text _ _ = bytes_of_string "ERR"
 
 let run_case_with : 'h. ('h -> z -> hcall -> 'h * hresult) -> 'h -> ccase -> string = fun handle hs0 c ->
   let ss = { ss_config = (match c.pw with Some p -> [(bytes_of_string "requirepass", p)] | None -> []);
-             ss_auths = (match c.pw with Some p -> [AClear ([], p)] | None -> []);
+             ss_auths = (match c.pw with Some p -> [AClear ([], p)] | None -> []) @ (match c.rule with Some cn -> [ACert cn] | None -> []);
              ss_app = c.app } in
   if c.conns = 1 then begin
     (* single connection: the whole byte stream through the receive loop model *)
     let input = List.concat (List.filter_map (fun (_, op) ->
       if op.[0] = 'f' || op.[0] = 'g' then Some (bytes_of_hex (String.sub op 1 (String.length op - 1))) else None) c.steps) in
-    let r = serve handle regexp_src fw_text ss hs0 None input in
+    (* the TLS state the connection is served with: None = plain; Some chain = common names of the verified chain, leaf first *)
+    let tls = (match c.tls with
+      | spec :: _ when spec <> "" && spec <> "p" ->
+        if spec.[0] = 'c' then Some [bytes_of_hex (String.sub spec 1 (String.length spec - 1))] else Some []
+      | _ -> None) in
+    let r = serve handle regexp_src fw_text ss hs0 tls input in
     let ending = (match fst r with EndEOS -> "ret" | EndProtoErr -> "ret" | EndQuit -> "ret" | EndPanic -> "PANIC(model)" | EndFuel -> "FUEL") in
     Printf.sprintf "conn0=%s|%s;;final=0" ending (String.concat "~" (List.map ev_text (trace r)))
   end else begin
